@@ -1,5 +1,6 @@
 import HexVerif.Lemmas.XcmpCall
 import HexVerif.Lemmas.XcmpStage3
+import HexVerif.Lemmas.XcmpPExpr
 /-!
   Stage (4), definitions: the program context `GCtx` (every procedure with its code position and
   generation facts), the procedure context `KOf` of an activation as a function of its stack
@@ -34,6 +35,67 @@ def okS4L (ps : List String) : List X.Stmt → Bool
   | s :: ss => okS4 ps s && okS4L ps ss
 end
 
+/-- A right-hand side: call-free, one call with call-free actuals, or (class v3, `pk`) operators
+    over calls of pure functions. -/
+def rhs5 (pk : Bool) (ps imp : List String) (e : X.Expr) : Bool :=
+  pureE e || callE ps e || (pk && ppE ps imp e)
+
+/-- A condition: call-free, or (class v3) operators over calls of pure functions. -/
+def cond5 (pk : Bool) (ps imp : List String) (e : X.Expr) : Bool :=
+  pureE e || (pk && ppE ps imp e)
+
+mutual
+/-- The statements of stage (4), with calls of pure functions in operands if `pk`. -/
+def okS5 (pk : Bool) (ps imp : List String) : X.Stmt → Bool
+  | .skip | .stop => true
+  | .ret e => rhs5 pk ps imp e
+  | .ite c t e => cond5 pk ps imp c && okS5 pk ps imp t && okS5 pk ps imp e
+  | .while c b => cond5 pk ps imp c && okS5 pk ps imp b
+  | .seq ss => okS5L pk ps imp ss
+  | .assign _ e => rhs5 pk ps imp e
+  | .syscall id args => decide (id < 3) && args.all pureE
+  | .call f args => ps.contains f && args.all pureE
+  | .assignSub _ _ _ => false
+def okS5L (pk : Bool) (ps imp : List String) : List X.Stmt → Bool
+  | [] => true
+  | s :: ss => okS5 pk ps imp s && okS5L pk ps imp ss
+end
+
+mutual
+theorem okS4_okS5 (pk : Bool) (ps imp : List String) : (s : X.Stmt) → okS4 ps s = true → okS5 pk ps imp s = true
+  | .skip, _ => rfl
+  | .stop, _ => rfl
+  | .ret e, h => by
+    simp only [okS4, Bool.or_eq_true] at h
+    simp only [okS5, rhs5, Bool.or_eq_true]
+    exact Or.inl h
+  | .assign _ e, h => by
+    simp only [okS4, Bool.or_eq_true] at h
+    simp only [okS5, rhs5, Bool.or_eq_true]
+    exact Or.inl h
+  | .ite c t e, h => by
+    simp only [okS4, Bool.and_eq_true] at h
+    simp only [okS5, cond5, Bool.and_eq_true, Bool.or_eq_true]
+    exact ⟨⟨Or.inl h.1.1, okS4_okS5 pk ps imp t h.1.2⟩, okS4_okS5 pk ps imp e h.2⟩
+  | .while c b, h => by
+    simp only [okS4, Bool.and_eq_true] at h
+    simp only [okS5, cond5, Bool.and_eq_true, Bool.or_eq_true]
+    exact ⟨Or.inl h.1, okS4_okS5 pk ps imp b h.2⟩
+  | .seq ss, h => by
+    simp only [okS4] at h
+    simp only [okS5]
+    exact okS4L_okS5L pk ps imp ss h
+  | .syscall _ _, h => by simp only [okS4] at h; simp only [okS5]; exact h
+  | .call _ _, h => by simp only [okS4] at h; simp only [okS5]; exact h
+  | .assignSub _ _ _, h => by simp [okS4] at h
+theorem okS4L_okS5L (pk : Bool) (ps imp : List String) : (ss : List X.Stmt) → okS4L ps ss = true → okS5L pk ps imp ss = true
+  | [], _ => rfl
+  | s :: ss, h => by
+    simp only [okS4L, Bool.and_eq_true] at h
+    simp only [okS5L, Bool.and_eq_true]
+    exact ⟨okS4_okS5 pk ps imp s h.1, okS4L_okS5L pk ps imp ss h.2⟩
+end
+
 def isValFormal : X.Formal → Bool
   | .val _ => true
   | _ => false
@@ -63,6 +125,7 @@ structure GCtx where
   spv : Nat                            -- initial stack pointer
   smax : Nat                           -- largest frame
   lo : Nat                             -- lowest stack pointer of any activation
+  pk : Bool := false                   -- class v3: calls of pure functions in operands
 
 def GCtx.S (G : GCtx) (pi : PInfo) : Nat := (frameOf G.cg pi.idx).size
 def GCtx.xl (G : GCtx) (pi : PInfo) : String := (frameOf G.cg pi.idx).exitLabel
@@ -145,7 +208,8 @@ structure GCtx.OK (G : GCtx) : Prop where
   nl_ok : ∀ pi ∈ G.procs, pi.p.locals.length ≤ pi.gs1.offset
   consts_ok : ∀ pi ∈ G.procs, ∀ e ∈ pi.gs2.constMap, e ∈ G.consts
   smax_ok : ∀ pi ∈ G.procs, G.S pi ≤ G.smax
-  body_ok : ∀ pi ∈ G.procs, okS4 G.pnames pi.p.body = true
+  body_ok : ∀ pi ∈ G.procs, okS5 G.pk G.pnames G.xc.impure pi.p.body = true
+  pure_ok : G.pk = true → PureOk G.xc
   formals_val : ∀ pi ∈ G.procs, pi.p.formals.all isValFormal = true
   locals_var : ∀ pi ∈ G.procs, pi.p.locals.all isVarDecl = true
   resolve : ∀ f p, G.xc.genv.lookup f = some (.proc p) → ∃ pi ∈ G.procs, pi.p = p ∧ p.name = f
